@@ -231,6 +231,65 @@ Theorem C01_partition_points :
 Proof. intros fval u0 u1 Hh0 Hh1. exact (partition_points fval u0 u1 Hh0 Hh1). Qed.
 Print Assumptions C01_partition_points.
 
+From T4V Require Import C01.Printer C01.ProofsPrinter C01.ProofsFile.
+
+(* the printer (VolumeT4.__str__ + the writer's VOLU loop, as token lines) and a
+   reader of such lines: a printed volume without None operand reads back as
+   itself with PLUS/MINUS sorted and duplicate free *)
+Theorem C01_print_read : forall k v, ops_ok (v_ops v) = true ->
+  read_line (print_line k v) =
+  Some (k, mkVol (canon (v_plus v)) (canon (v_minus v)) (v_ops v) [] (v_fict v)).
+Proof. exact read_line_print. Qed.
+Print Assumptions C01_print_read.
+
+(* THE PROPERTY about the printed VOLU lines: every line is readable, and the
+   partition statement holds of the table the reader returns *)
+Theorem C01_partition_file :
+  forall sigma cden cells matching u0 u1 fuel todo cnt0 s' rn skipped d' c,
+  0 < u0 -> 0 < u1 -> consistent sigma u0 u1 ->
+  (forall c g orig, lookup c cells = Some (g, orig) ->
+     leaves_ok (msurf_ok matching) g /\ cden c = mden sigma cden matching g) ->
+  NoDup todo -> (forall k, In k todo -> k <= cnt0) ->
+  convert_cells fuel cells matching u0 u1 todo (mkSt cnt0 [] [] []) = Ok s' ->
+  prune u0 u1 rn (vols s') = Ok d' ->
+  (forall r, rn = Some r -> respects sigma r) ->
+  (forall k, In k skipped -> k <= cnt0 /\ ~ In k todo) ->
+  cden c = true -> (forall c', In c' todo -> cden c' = true -> c' = c) ->
+  exists T, read_table (print_table skipped d') = Some T /\
+            (In c todo -> forall k, in_volume sigma T k <-> k = c) /\
+            (~ In c todo -> forall k, ~ in_volume sigma T k).
+Proof.
+  intros sigma cden cells matching u0 u1 fuel todo cnt0 s' rn skipped d' c
+         H0 H1 Hc Hok Hnd Hle Hrun Hpr Hresp Hskip Hown Huniq.
+  exact (file_partition sigma cden cells matching u0 u1 H0 H1 Hc Hok fuel todo cnt0 s'
+           Hnd Hle Hrun rn skipped d' Hpr Hresp Hskip c Hown Huniq).
+Qed.
+Print Assumptions C01_partition_file.
+
+(* END TO END: points of R^3 (any surface functions, helper planes x-1 and x+1,
+   merged surfaces equal) against the printed VOLU lines read back: a point off
+   every surface owned by cell c lies in exactly one read-back non-FICTIVE volume,
+   numbered c, when c has non-zero importance, and in none otherwise *)
+Theorem C01_partition_file_points :
+  forall (fval : Z -> point -> R) (u0 u1 : Z),
+  (forall p, fval u0 p = (px p - 1)%R) -> (forall p, fval u1 p = (px p + 1)%R) ->
+  forall (cden : point -> Z -> bool) cells matching fuel todo cnt0 s' rn skipped d' p c,
+  0 < u0 -> 0 < u1 -> off_surfaces fval p ->
+  (forall c g orig, lookup c cells = Some (g, orig) ->
+     leaves_ok (msurf_ok matching) g /\
+     cden p c = mden (sigma_of fval p) (cden p) matching g) ->
+  NoDup todo -> (forall k, In k todo -> k <= cnt0) ->
+  convert_cells fuel cells matching u0 u1 todo (mkSt cnt0 [] [] []) = Ok s' ->
+  prune u0 u1 rn (vols s') = Ok d' ->
+  (forall r, rn = Some r -> merged_equal fval r) ->
+  (forall k, In k skipped -> k <= cnt0 /\ ~ In k todo) ->
+  cden p c = true -> (forall c', In c' todo -> cden p c' = true -> c' = c) ->
+  exists T, read_table (print_table skipped d') = Some T /\
+            (In c todo -> forall k, pt_in fval T p k <-> k = c) /\
+            (~ In c todo -> forall k, ~ pt_in fval T p k).
+Proof. exact file_partition_points. Qed.
+Print Assumptions C01_partition_file_points.
+
 (* non-vacuity: five cells (three converted, one of importance 0, one filler kept
    by reference), a union without pure-intersection member, a surface of
    reversed side; every hypothesis of C01_cells / C01_partition holds, with a
